@@ -90,6 +90,12 @@ QVector<ObjectType> buildTypes()
             F_CUSTOM(T, "reaction", "str+set:str", SETL(QXmppMessageReaction re; re.setMessageId(plain ? v.plain : v.str); auto em = qxvfields::members(v, plain); em.removeDuplicates(); /* setEmojis(): "Duplicates are not allowed" */ re.setEmojis(qxvfields::fromStrings<QVector<QString>>(em)); o.setReaction(re)),
                      GETL(auto re = o.reaction(); if (!re) return QStringLiteral("(none)"); return re->messageId() + QChar('|') + qxvfields::set2s(qxvfields::toStrings(re->emojis())))),
             F_CUSTOM(T, "mixInvitation", "str", SETL({ QXmppMixInvitation mi; mi.setInviterJid(plain ? v.plain : v.str); mi.setInviteeJid("b@x"); mi.setChannelJid("c@x"); mi.setToken(plain ? v.plain : v.str); o.setMixInvitation(mi); }), GETL({ auto mi = o.mixInvitation(); return mi ? mi->inviterJid() + '|' + mi->inviteeJid() + '|' + mi->channelJid() + '|' + mi->token() : QStringLiteral("(none)"); })),
+            F_CUSTOM(T, "jingleMessageInitiation", "nonza", SETL(QXmppJingleMessageInitiationElement e; e.setId(plain ? v.plain : v.str); switch (v.idx % 4) {
+                     case 0: e.setType(QXmppJingleMessageInitiationElement::Type::Reject); e.setContainsTieBreak(true); break;
+                     case 1: e.setType(QXmppJingleMessageInitiationElement::Type::Finish); e.setMigratedTo(plain ? v.plain : v.str); break;
+                     case 2: { e.setType(QXmppJingleMessageInitiationElement::Type::Retract); QXmppJingleReason r; r.setType(QXmppJingleReason::Busy); e.setReason(r); e.setContainsTieBreak(true); break; }
+                     default: e.setType(QXmppJingleMessageInitiationElement::Type::Proceed); } o.setJingleMessageInitiationElement(e)),
+                     GETL(auto e = o.jingleMessageInitiationElement(); if (!e) return QStringLiteral("(none)"); return QString::number(int(e->type())) + QChar('|') + e->id() + QChar('|') + qxvfields::b2s(e->containsTieBreak()) + QChar('|') + e->migratedTo() + QChar('|') + (e->reason() ? QString::number(e->reason()->type()) : QStringLiteral("-")))),
             F_CUSTOM(T, "fallbackMarkers", "str", SETL({ QXmppFallback fb(plain ? v.plain : v.str, { QXmppFallback::Reference { QXmppFallback::Body, QXmppFallback::Range { uint32_t(v.idx), std::numeric_limits<uint32_t>::max() } } }); o.setFallbackMarkers({ fb }); }), GETL({ QStringList l; for (const auto &fb : o.fallbackMarkers()) { l << fb.forNamespace(); for (const auto &rf : fb.references()) l << QString::number(int(rf.element)) + '|' + (rf.range ? QString::number(rf.range->start) + '-' + QString::number(rf.range->end) : QStringLiteral("-")); } return l.join(QChar(0x1f)); })),
         });
     }
@@ -562,9 +568,23 @@ QVector<ObjectType> buildTypes()
     }
     {
         using T = QXmppJingleMessageInitiationElement;
-        r << makeType<T>("QXmppJingleMessageInitiationElement", {
-            F_STR(T, "id", setId, id), F_ENUM(T, "type", QXmppJingleMessageInitiationElement::Type, 1, 6, setType, type),
-        }, [](T &o) { o.setType(QXmppJingleMessageInitiationElement::Type::Ringing); o.setId("a73sjjvkla37jfea"); });
+        using Ty = QXmppJingleMessageInitiationElement::Type;
+        // The parser switches on the element type: one table per discriminator value, so that the presence
+        // lattice (none, each single, all but one, all) of the optional fields runs for every value.
+        const auto reason = F_CUSTOM(T, "reason", "enum+str", SETL(QXmppJingleReason r; r.setType(QXmppJingleReason::Type(1 + v.idx % 17)); r.setText(plain ? v.plain : v.str); o.setReason(r)),
+                                     GETL(auto r = o.reason(); return r ? QString::number(r->type()) + QChar('|') + r->text() : QStringLiteral("(none)")));
+        const auto tieBreak = F_CUSTOM(T, "containsTieBreak", "bool", SETL(o.setContainsTieBreak(true)), GETL(return qxvfields::b2s(o.containsTieBreak())));
+        const auto migratedTo = F_STR(T, "migratedTo", setMigratedTo, migratedTo);
+        const auto description = F_CUSTOM(T, "description", "str", SETL(QXmppJingleDescription d; d.setMedia(plain ? v.plain : v.str); d.setType("urn:xmpp:jingle:apps:rtp:1"); o.setDescription(d)),
+                                          GETL(auto d = o.description(); return d ? d->media() + QChar('|') + d->type() : QStringLiteral("(none)")));
+        const auto id = F_STR(T, "id", setId, id);
+        auto init = [](Ty ty) { return [ty](T &o) { o.setType(ty); o.setId("a73sjjvkla37jfea"); }; };
+        r << makeType<T>("QXmppJingleMessageInitiationElement[propose]", { id, description }, init(Ty::Propose));
+        r << makeType<T>("QXmppJingleMessageInitiationElement[ringing]", { id }, init(Ty::Ringing));
+        r << makeType<T>("QXmppJingleMessageInitiationElement[proceed]", { id }, init(Ty::Proceed));
+        r << makeType<T>("QXmppJingleMessageInitiationElement[reject]", { id, reason, tieBreak }, init(Ty::Reject));
+        r << makeType<T>("QXmppJingleMessageInitiationElement[retract]", { id, reason, tieBreak }, init(Ty::Retract));
+        r << makeType<T>("QXmppJingleMessageInitiationElement[finish]", { id, reason, migratedTo }, init(Ty::Finish));
     }
     {
         using T = QXmppCallInviteElement;
